@@ -1405,6 +1405,10 @@ pub fn c11_after_timer(ck: &mut Checker, sim: &mut Sim, _proto: Proto, _token: u
         sim.stat("probe.c11.timeout_disconnects");
     }
     for (clause, detail) in findings {
+        // in a world of protocol-following peers this is an honest peer rejected (C05)
+        if clause == "peer_disconnected_without_a_timeout" && ck.honest_only {
+            sim.violate("C05", "honest_peer_disconnected_without_a_timeout", detail.clone());
+        }
         sim.violate("C11", clause, detail);
     }
 }
